@@ -101,6 +101,10 @@ func insertFences(repo string) error {
 	if err := insertLockFences(filepath.Join(repo, "pkg/metadata/http2.go"), "RLock", "verifYieldRead"); err != nil {
 		missing = append(missing, "fingerprint read locks: "+err.Error())
 	}
+	// ... and before every "<x>.Mu.Lock()" there, should the writing side have moved into that
+	// package (setters that take the lock themselves: one frame's capture can then be spread
+	// over several critical sections without server.go showing it).  None on the pinned tree.
+	_ = insertLockFences(filepath.Join(repo, "pkg/metadata/http2.go"), "Lock", "verifYieldWriteSide")
 	// hand-over fences: around the hand-over of a connection to the HTTP/1.1 server
 	if err := insertHandoverFences(filepath.Join(repo, "pkg/proxyserver/proxyserver.go")); err != nil {
 		missing = append(missing, "hand-over: "+err.Error())
